@@ -74,6 +74,29 @@ func (c *Conn) VerifC34WriteHandshakeRecord(data []byte) error {
 	return err
 }
 
+// VerifC34SendKeyUpdate sends a well-formed KeyUpdate and ratchets the write key, as handleKeyUpdate does when it
+// answers a peer's request (conn.go:1352-1370), so that what is written afterwards still decrypts at the peer.
+func (c *Conn) VerifC34SendKeyUpdate(requestUpdate bool) error {
+	if c.vers != VersionTLS13 {
+		return errors.New("verif: KeyUpdate needs TLS 1.3")
+	}
+	cipherSuite := cipherSuiteTLS13ByID(c.cipherSuite)
+	if cipherSuite == nil {
+		return errors.New("verif: no TLS 1.3 cipher suite")
+	}
+	c.out.Lock()
+	defer c.out.Unlock()
+	msgBytes, err := (&keyUpdateMsg{updateRequested: requestUpdate}).marshal()
+	if err != nil {
+		return err
+	}
+	if _, err := c.writeRecordLocked(recordTypeHandshake, msgBytes); err != nil {
+		return err
+	}
+	c.out.setTrafficSecret(cipherSuite, QUICEncryptionLevelInitial, cipherSuite.nextTrafficSecret(c.out.trafficSecret))
+	return nil
+}
+
 // VerifC34Client13 is a TLS 1.3 client whose handshake is the sequence of the package's own client sub-steps
 // (handshake_client.go:270-394, handshake_client_tls13.go:52-178; no ECH, HelloRetryRequest or resumption), calling
 // inject(pos) between them and sending what it returns as handshake records:
